@@ -83,7 +83,18 @@ def wl_statemachine(classes, tier, rng, labelled_only=False, exh=True, n_rand=(2
     for _ in range(total):
         cls = rng.choice(classes)
         kind = rng.choice(kinds_for(cls, tier, rng, labelled_only))
-        yield gen.random_history(rng, cls, kind, nmax=scale(tier, 6, 10), lmax=scale(tier, 25, 60), **kw)
+        meta, ops = gen.random_history(rng, cls, kind, nmax=scale(tier, 6, 10), lmax=scale(tier, 25, 60), **kw)
+        if rng.random() < 0.2:
+            # the state survives copying and moving: copy / move construction, move assignment over a populated
+            # graph, the `g = Graph(n)` reset idiom, and the original keeps working afterwards
+            other = gen.random_history(rng, cls, kind, nmax=4, lmax=6, **kw)[1]
+            ops += [l.replace(" 0", " 1", 1) if not l.startswith("new") else l.replace("new 0", "new 1", 1) for l in other]
+            ops += ["movecopy 0 2", "dump 2", "moveassign 0 1", "dump 1", gen.new_line(3, cls, kind, meta["n"]), "moveassign 3 2", "dump 2", "dump 0"]
+            if meta["n"] > 0:
+                ops.append(add_op(cls, 0, 0, 0, val_for(rng, cls, kind)))
+            ops += ["dump 0", "dump 1"]
+            meta["len"] = len(ops)
+        yield (meta, ops)
 
 
 def wl_C01(tier, rng):
@@ -306,6 +317,8 @@ def wl_C06(tier, rng):
         ops += ["eq 0 2", "eq 2 0", "eq 1 2", "dump 1"]
         # assignment independence
         ops += ["assign 0 4", "eq 0 4", "assign 4 4", "eq 0 4", "eq 4 4"]   # incl. self-assignment
+        # move construction, move assignment over a populated graph, and the `g = Graph(n)` reset idiom
+        ops += ["movecopy 0 5", "eq 0 5", "moveassign 1 2", "eq 1 2", "dump 2", gen.new_line(6, cls, kind, n), "moveassign 6 5", "dump 5", "eq 5 6"]
         if n > 0:
             a, b = gen.pick_pair(rng, n)
             ops += [add_op(cls, 0, a, b, val_for(rng, cls, kind)), "dump 4", "eq 0 4", "eq 1 4"]
@@ -510,6 +523,7 @@ def wl_C09(tier, rng):
         elif cls == "und":
             ops += ["todirected 0 1", "ofdirected 1 2", "eq 0 2", "eq 2 0", "reversed 1 3", "eq 1 3"]
         ops += ["copy 0 6", "eq 0 6", "assign 0 7", "eq 7 0", "assign 7 7", "eq 7 0", "assign 0 0", "eq 0 6"]   # incl. self-assignment
+        ops += ["movecopy 0 10", "eq 0 10", "moveassign 0 7", "eq 7 0"]
         # edge-list constructor vs one-at-a-time
         if True:
             cont = rng.choice(["vector", "list", "deque", "flist"])
